@@ -943,7 +943,7 @@ func verifAssume(cond bool) {}
 //@   modifies *msg
 
 //@ func (*Message).UnmarshalJSON :: (msg, b) (result)
-//@   props C01 C02
+//@   props C01 C02 C04
 //@   requires msg != nil
 //@   modifies *msg
 //@   oncall [C01,C02] encoding/json.Unmarshal[*rawEnvelope] : a_data == b
@@ -958,21 +958,21 @@ func verifAssume(cond bool) {}
 // json.Marshal returned. This ties the wire lemmas (which start from
 // toRawEnvelope) to the bytes that are really written.
 //@ func (*Message).MarshalJSON :: (msg) (result0, result1)
-//@   props C01 C02
+//@   props C01 C02 C04
 //@   requires msg != nil
 //@   modifies nothing
 //@   oncall [C01,C02] encoding/json.Marshal[*rawEnvelope] : a_v.(*rawEnvelope) == resultof("(*Message).toRawEnvelope", 0) && *(a_v.(*rawEnvelope)) == atreturn("(*Message).toRawEnvelope", *(a_v.(*rawEnvelope)))
 //@   checks [C01,C02] @encodesonce result1 == nil ==> ncalls("(*Message).toRawEnvelope") == 1 && ncalls("encoding/json.Marshal[*rawEnvelope]") == 1 && result0 == resultof("encoding/json.Marshal[*rawEnvelope]", 0)
 //@   checks [C01,C02] @failsifunencodable nerr("(*Message).toRawEnvelope") > 0 ==> result1 != nil
 //@ func (*RequestCommand).MarshalJSON :: (cmd) (result0, result1)
-//@   props C01 C02
+//@   props C01 C02 C04
 //@   requires cmd != nil
 //@   modifies nothing
 //@   oncall [C01,C02] encoding/json.Marshal[*rawEnvelope] : a_v.(*rawEnvelope) == resultof("(*RequestCommand).toRawEnvelope", 0) && *(a_v.(*rawEnvelope)) == atreturn("(*RequestCommand).toRawEnvelope", *(a_v.(*rawEnvelope)))
 //@   checks [C01,C02] @encodesonce result1 == nil ==> ncalls("(*RequestCommand).toRawEnvelope") == 1 && ncalls("encoding/json.Marshal[*rawEnvelope]") == 1 && result0 == resultof("encoding/json.Marshal[*rawEnvelope]", 0)
 //@   checks [C01,C02] @failsifunencodable nerr("(*RequestCommand).toRawEnvelope") > 0 ==> result1 != nil
 //@ func (*ResponseCommand).MarshalJSON :: (cmd) (result0, result1)
-//@   props C01 C02
+//@   props C01 C02 C04
 //@   requires cmd != nil
 //@   modifies nothing
 //@   oncall [C01,C02] encoding/json.Marshal[*rawEnvelope] : a_v.(*rawEnvelope) == resultof("(*ResponseCommand).toRawEnvelope", 0) && *(a_v.(*rawEnvelope)) == atreturn("(*ResponseCommand).toRawEnvelope", *(a_v.(*rawEnvelope)))
@@ -987,7 +987,7 @@ func verifAssume(cond bool) {}
 //@   checks [C01,C02] @failsifunencodable nerr("(*Session).toRawEnvelope") > 0 ==> result1 != nil
 
 //@ func (Notification).MarshalJSON :: (not) (result0, result1)
-//@   props C01 C02
+//@   props C01 C02 C04
 //@   modifies nothing
 //@   oncall [C01,C02] encoding/json.Marshal[*rawEnvelope] : a_v.(*rawEnvelope) == resultof("(*Notification).toRawEnvelope", 0) && *(a_v.(*rawEnvelope)) == atreturn("(*Notification).toRawEnvelope", *(a_v.(*rawEnvelope)))
 //@   checks [C01,C02] @encodesonce result1 == nil ==> ncalls("(*Notification).toRawEnvelope") == 1 && ncalls("encoding/json.Marshal[*rawEnvelope]") == 1 && result0 == resultof("encoding/json.Marshal[*rawEnvelope]", 0)
@@ -1026,7 +1026,7 @@ func verifAssume(cond bool) {}
 //@   modifies *not
 
 //@ func (*Notification).UnmarshalJSON :: (not, b) (result)
-//@   props C01 C02
+//@   props C01 C02 C04
 //@   requires not != nil
 //@   modifies *not
 //@   oncall [C01,C02] encoding/json.Unmarshal[*rawEnvelope] : a_data == b
@@ -1078,7 +1078,7 @@ func verifAssume(cond bool) {}
 //@   modifies *cmd
 
 //@ func (*RequestCommand).UnmarshalJSON :: (cmd, b) (result)
-//@   props C01 C02
+//@   props C01 C02 C04
 //@   requires cmd != nil
 //@   modifies *cmd
 //@   oncall [C01,C02] encoding/json.Unmarshal[*rawEnvelope] : a_data == b
@@ -1105,7 +1105,7 @@ func verifAssume(cond bool) {}
 //@   modifies *cmd
 
 //@ func (*ResponseCommand).UnmarshalJSON :: (cmd, b) (result)
-//@   props C01 C02
+//@   props C01 C02 C04
 //@   requires cmd != nil
 //@   modifies *cmd
 //@   oncall [C01,C02] encoding/json.Unmarshal[*rawEnvelope] : a_data == b
@@ -1132,7 +1132,7 @@ func verifAssume(cond bool) {}
 //@ spec fn kindSes(re *rawEnvelope) bool = !kindReq(re) && !kindResp(re) && re.Event == nil && re.Content == nil && re.State != nil
 
 //@ func (*rawEnvelope).toEnvelope :: (re) (result0, result1)
-//@   props C01 C02
+//@   props C01 C02 C04
 //@   requires re != nil
 //@   ensures err == nil ==> result0 != nil && fresh(result0)
 //@   ensures kindReq(re) && okCommand(re) ==> err == nil
